@@ -9,7 +9,8 @@ ID = "C07"
 LEVEL = "exploration"
 RULE = ("Hypothesis generates a point of the layout lattice: mount table (home on / or on its own "
         "volume, 0-3 extra volumes, nested), state of $topdir/.Trash {absent, sticky, non-sticky, "
-        "symlink->sticky, symlink->non-sticky, file}, of $topdir/.Trash/$uid {absent, dir, file}, of "
+        "symlink->sticky, symlink->non-sticky, file, setgid, setuid, a sticky MOUNT POINT}, of "
+        "$topdir/.Trash/$uid {absent, dir, file, symlink to another volume, symlink within the volume}, of "
         "$topdir/.Trash-$uid {absent, dir, file, symlink to another volume}, home trash {absent, "
         "existing, symlink to another volume}, XDG_DATA_HOME {unset, empty, custom, on another "
         "volume}, HOME set/unset, uid, umask, options {none, --trash-dir on/off the file's volume, "
@@ -38,7 +39,8 @@ def grid(tier):
         vols, _home = gen.LAYOUTS[lay]
         for fvol in ["/"] + vols:
             for top, us, alt, ht, xdg, opt, reach in itertools.product(
-                    gen.TOP_STATES, ["absent", "dir", "file"], ["absent", "dir", "file", "link_other"],
+                    gen.TOP_STATES + ["mount_sticky"], ["absent", "dir", "file", "link_other"],
+                    ["absent", "dir", "file", "link_other"],
                     ["absent", "exists", "link_other"], ["unset", "empty", "custom", "othervol"],
                     ["none", "trash_dir_same", "trash_dir_other", "trash_dir_link", "fallback_both",
                      "fallback_flag_only", "fallback_env_only"],
@@ -61,8 +63,8 @@ def strategy_(draw, tier):
     fvol = draw(st.sampled_from(allv))
     return {"layout": lay, "uid": draw(st.sampled_from([1000, 0, 12345])),
             "fvol": fvol,
-            "top": draw(st.sampled_from(gen.TOP_STATES)),
-            "uid_state": draw(st.sampled_from(["absent", "absent", "dir", "file"])),
+            "top": draw(st.sampled_from(gen.TOP_STATES + ["sticky", "mount_sticky"])),
+            "uid_state": draw(st.sampled_from(["absent", "absent", "dir", "file", "link_other", "link_same"])),
             "alt": draw(st.sampled_from(["absent", "absent", "dir", "file", "link_other"])),
             "hometrash": draw(st.sampled_from(["absent", "absent", "exists", "link_other"])),
             "xdg": draw(st.sampled_from(["unset", "unset", "unset", "empty", "custom", "othervol", "custom_slash"])),
@@ -167,13 +169,26 @@ def run_case(case):
             nodes.append({"p": tgt, "t": "d", "m": 0o700})
             nodes.append({"p": ht, "t": "l", "to": tgt})
     fv = fvol.rstrip("/")
-    nodes += gen.topdir_nodes(fvol, uid, case["top"], "absent")
-    if case["top"] in ("sticky", "nonsticky", "link_sticky", "link_nonsticky", "setgid", "setuid"):
+    if case["top"] == "mount_sticky":
+        # $topdir/.Trash passes every check of the spec but is itself a mount point: what lies
+        # below it is on ANOTHER volume, so $topdir/.Trash/$uid is not on the file's volume
+        vols = vols + [fv + "/.Trash"]
+        nodes.append({"p": fv + "/.Trash", "t": "d", "m": 0o1777})
+    else:
+        nodes += gen.topdir_nodes(fvol, uid, case["top"], "absent")
+    if case["top"] in ("sticky", "nonsticky", "link_sticky", "link_nonsticky", "setgid", "setuid",
+                       "mount_sticky"):
         basep = fv + ("/.real-trash" if case["top"].startswith("link") else "/.Trash")
         if case["uid_state"] == "dir":
             nodes.append({"p": basep + "/%d" % uid, "t": "d", "m": 0o700})
         elif case["uid_state"] == "file":
             nodes.append({"p": basep + "/%d" % uid, "t": "f", "c": "x"})
+        elif case["uid_state"] in ("link_other", "link_same"):
+            # $topdir/.Trash/$uid relocated by a symbolic link (to another volume / within this one)
+            tgt = ((other[0] if other else "/elsewhere") if case["uid_state"] == "link_other"
+                   else fv).rstrip("/") + "/uid-dir-target"
+            nodes.append({"p": tgt, "t": "d", "m": 0o700})
+            nodes.append({"p": basep + "/%d" % uid, "t": "l", "to": tgt})
     if case["alt"] == "dir":
         nodes.append({"p": fv + "/.Trash-%d" % uid, "t": "d", "m": 0o700})
     elif case["alt"] == "file":
